@@ -36,7 +36,63 @@ def run_check(pid, tier, seed):
         except Exception as e:
             traceback.print_exc()
             ctx.lost("internal", "thorough-tier error in %s: %s: %s" % (pid, type(e).__name__, e))
-    return core.finish(ctx, claim["level"], claim["explanation"], claim["assumptions"], t0)
+    extra = None
+    if tier == "thorough":
+        extra = liveness_sweep(ctx, pid)
+    return core.finish(ctx, claim["level"], claim["explanation"], claim["assumptions"], t0, extra)
+
+
+def liveness_sweep(ctx, pid):
+    """Thorough tier: apply this property's rows of the mutation catalogue, one at a time, to a scratch copy of /repo's current tree
+    (outside /repo and /verif, removed immediately), re-extract facts and require the rules to fire on every M row and stay silent on
+    every N row.  Source analysis only; a row whose edit no longer applies is skipped and listed."""
+    import shutil
+    import subprocess
+    import tempfile
+    sys.path.insert(0, os.path.join(core.VERIF, "selftest"))
+    from catalogue import MUTATIONS
+    ctx.rule("liveness", "mutation sweep: every catalogued breaking edit for this property makes its rule fire; every behaviour-preserving edit stays silent")
+    ctx.cfg = "sweep"
+    rows = [m for m in MUTATIONS if pid in m["expect"]]
+    skipped, done = [], 0
+    for m in rows:
+        want = m["expect"][pid]
+        tmp = tempfile.mkdtemp(prefix="mtsa-sweep-")
+        try:
+            for f in ("src", "benches", "tests", "Cargo.toml", "Cargo.lock"):
+                s_ = os.path.join(core.REPO, f)
+                if os.path.exists(s_):
+                    (shutil.copytree if os.path.isdir(s_) else shutil.copy)(s_, os.path.join(tmp, f))
+            ok_apply = True
+            for (fn, old, new) in m["edits"]:
+                p_ = os.path.join(tmp, fn)
+                txt = open(p_).read()
+                if txt.count(old) != 1:
+                    ok_apply = False
+                    break
+                open(p_, "w").write(txt.replace(old, new))
+            if not ok_apply:
+                skipped.append(m["name"])
+                continue
+            env = dict(os.environ, MTSA_REPO=tmp, MTSA_EVIDENCE_DIR=os.path.join(tmp, "evidence"), VERIF_TIER="quick")
+            r = subprocess.run([os.path.join(core.VERIF, "bin/check"), pid, "--tier", "quick"], capture_output=True, text=True, env=env)
+            out = r.stdout + r.stderr
+            if "fact extraction failed" in out:
+                skipped.append(m["name"] + " (mutant does not compile on this tree)")
+                continue
+            fired = [l.strip() for l in out.splitlines() if l.strip().startswith("violation rule=")]
+            done += 1
+            if want is None:
+                ctx.ob("liveness", "N: `%s` leaves %s silent" % (m["name"], pid), r.returncode == 0, "selftest", "false-alarm-on:" + m["name"],
+                       detail="the behaviour-preserving edit raised: %s" % "; ".join(fired)[:400])
+            else:
+                hit = [l for l in fired if want in l]
+                ctx.ob("liveness", "M: `%s` makes rule %s* fire" % (m["name"], want), r.returncode == 1 and bool(hit), "selftest", "missed-mutant:" + m["name"],
+                       detail="exit %d; fired: %s" % (r.returncode, "; ".join(fired)[:400]))
+        finally:
+            shutil.rmtree(tmp, ignore_errors=True)
+    ctx.note("liveness sweep: %d rows applied, %d skipped: %s" % (done, len(skipped), skipped))
+    return {"liveness_rows": done, "liveness_skipped": skipped}
 
 
 def main():
